@@ -18,7 +18,7 @@ THOROUGH = (
     + pick("C03", r"tree\.(set|rem|clear)\.(q|t)", tiers=("thorough",))
     + pick("C04", r"(array|list)\.(push|pop|push_at|pop_at|getset|rem|concat|resize|sort|assign|del|bad_index)\.", tiers=("thorough",))
 )
-OBLIGATIONS = QUICK + [o for o in THOROUGH]
+OBLIGATIONS = QUICK + [o for o in THOROUGH] + pick("C10", r"box_owns\.", tiers=None)
 for o in THOROUGH:
     o.name = o.name + ".T"
 LEVEL_TEXT = ("Bounded model checking: the same inductive-step obligations as C02/C03/C04, selected for their ownership-ledger assertions (every stored element holds a distinct live token, "
